@@ -335,6 +335,96 @@ example :
     [Attempt.ok, .retry, .fail "x", .ok] = [.ok, .retry, .fail "x"] ++ s.faults ∧ s.errs = ["x"] ∧
       s.delivered = [0, 1] := by decide
 
+/-! ### no error without a final failure; retried failures lose nothing, unconditionally -/
+
+/-- Converse of `fail_surfaces`: if no attempt outcome is a final failure, then under EVERY schedule the
+stream never yields an error and the constructor never fails - a retried failure (or an ignored one) is
+never turned into an error. -/
+theorem no_spurious_error (pages : List Page) (faults : List Attempt) (ops : List Op)
+    (hnf : ∀ e, Attempt.fail e ∉ faults) :
+    (run (init pages faults) ops).errs = [] ∧ (run (init pages faults) ops).ctorErr = none := by
+  have h := noerr_run (s := init pages faults) ⟨rfl, rfl, by simp [init], by simp [init], hnf⟩ ops
+  exact ⟨h.1, h.2.1⟩
+
+/-- "Transient failures that the retry policy retries do not lose, duplicate or reorder rows", with no
+side condition: if every attempt either succeeds or is retried, then - for every script and every number
+and placement of retries - scheduling producer and consumer in turn yields exactly all rows, no error,
+and the end. -/
+theorem retries_lose_nothing (pages : List Page) (faults : List Attempt) (n : Nat)
+    (hf : ∀ a ∈ faults, a = Attempt.ok ∨ a = Attempt.retry)
+    (hn : faults.length + 5 * pages.length + todoRows pages + 7 ≤ n) :
+    (runEager n (init pages faults)).delivered = servedRows pages ∧
+    (runEager n (init pages faults)).ended = true ∧
+    (runEager n (init pages faults)).errs = [] ∧ (runEager n (init pages faults)).ctorErr = none := by
+  have hnf : ∀ e, Attempt.fail e ∉ faults := by
+    intro e he; rcases hf _ he with h | h <;> simp at h
+  have hig : Attempt.ignore ∉ faults := by
+    intro he; rcases hf _ he with h | h <;> simp at h
+  obtain ⟨ops, hops, _⟩ := runEager_is_run n (init pages faults)
+  have hne := no_spurious_error pages faults ops hnf
+  rw [← hops] at hne
+  have hend := terminates pages faults n hn
+  refine ⟨eager_consumer_gets_everything pages faults n hn hig hne.1 hne.2, ?_, hne.1, hne.2⟩
+  rcases hend with h | h
+  · exact h
+  · simp [hne.2] at h
+
+example : (∀ a ∈ [Attempt.retry, .ok, .retry, .retry, .ok], a = Attempt.ok ∨ a = Attempt.retry) ∧
+    (runEager 60 (init [([0, 1], some [1]), ([], some [2]), ([2], none)] [.retry, .ok, .retry, .retry, .ok])).delivered
+      = [0, 1, 2] := by decide
+
+/-! ### what a stream that ended has yielded, whatever ended it -/
+
+/-- Whenever the live pager has seen `None` - because the last page came, or after an error, or because
+an `IgnoreWriteError` decision / a non-Rows first response made the producer stop - it has yielded
+exactly the rows of the `served` pages the server sent, all of them and nothing else. For the ignore
+outcomes this is the universal statement (`ignore_truncates_silently` only shows that the result CAN be
+short of `servedRows pages`): the rows of the pages before the ignored request, then the end. -/
+theorem ended_rows (pages : List Page) (faults : List Attempt) (ops : List Op)
+    (hrx : (run (init pages faults) ops).rx = .alive) (hend : (run (init pages faults) ops).ended = true) :
+    (run (init pages faults) ops).delivered = rowsBefore pages (run (init pages faults) ops).served := by
+  have inv := inv_reachable pages faults ops
+  obtain ⟨hpc, hch, hcur⟩ := inv.c.ended_q hend
+  have := inv.c.rows (by simp [hrx])
+  simpa [hpc, hch, hcur, chanRows, pcRows] using this
+
+example :
+    let s := run (init [([0], some [1]), ([1], some [2]), ([2], none)] [.ok, .ok, .ignore])
+      (List.replicate 8 [Op.prod, Op.poll]).flatten
+    s.rx = .alive ∧ s.ended = true ∧ s.errs = [] ∧ s.served = 2 ∧ s.delivered = [0, 1] := by decide
+
+/-- The `served` of `error_after_earlier_rows` / `ended_rows` IS the index of the failed request: once a
+final failure has been consumed (it is being sent, sits in the channel, was yielded, or failed the
+constructor), the LAST request in the log is the one for page `served`, carrying the state of page
+`served - 1`; pages `0 .. served-1` are exactly those served before it. -/
+theorem failed_request_is_for_page_served (pages : List Page) (faults : List Attempt) (ops : List Op)
+    (h : (run (init pages faults) ops).errs ≠ [] ∨ (run (init pages faults) ops).ctorErr.isSome = true ∨
+      chanErr (run (init pages faults) ops).chan = true ∨ pcErr (run (init pages faults) ops).pc = true) :
+    (run (init pages faults) ops).log.getLast? =
+      some ((run (init pages faults) ops).served, stateBefore pages (run (init pages faults) ops).served) := by
+  have inv := inv_reachable pages faults ops
+  have hf : Failing (run (init pages faults) ops) := by
+    rcases h with h | h | h | h
+    · exact Or.inr (Or.inr (Or.inl h))
+    · exact Or.inr (Or.inr (Or.inr h))
+    · exact Or.inr (Or.inl h)
+    · exact Or.inl h
+  obtain ⟨st, hst⟩ := inv.ei.last hf
+  have hmem := List.mem_of_getLast? hst
+  have := (inv.a.log_ok _ hmem).1
+  simp only at this
+  rw [hst, this]
+
+/-! ### the driver's schedules are schedules of the theorems -/
+
+/-- The drop schedules the line-protocol driver runs (laziest / most eager producer, then the drop, then
+the producer to quiescence) are `run`s of the same step functions, so every theorem above applies to
+what the driver prints. (`runEager_is_run` is the same fact for the eager consumer.) -/
+theorem driver_drop_schedules_are_runs (eagerProd : Bool) (k n : Nat) (s : St) :
+    (∃ ops, runDrop eagerProd k n s = run s ops) ∧
+    (∃ ops, prodToQuiescence n s = run s ops ∧ ∀ op ∈ ops, op = Op.prod) :=
+  ⟨runDrop_is_run eagerProd k n s, prodToQuiescence_is_run n s⟩
+
 /-! ### early drop -/
 
 /-- The producer is never more than two pages ahead of the consumer (one page in the channel, one held
@@ -374,6 +464,21 @@ example :
       [Op.prod, .prod, .prod, .prod, .prod, .prod, .poll]
     let b := run a (Op.drop :: (List.replicate 10 Op.prod))
     a.rx = .alive ∧ a.served = 3 ∧ b.served = 3 ∧ b.delivered = [0] ∧ b.pc = .done := by decide
+
+/-- ... and the producer FINISHES: after the drop, `measure a` (at most `measure (init ..)`) of its own
+steps bring it to `done` (polls and further drops are no-ops on a dropped pager), i.e. the task returns
+and releases the connection - whatever it was doing (fetching with retries ahead, blocked in `send`). -/
+theorem producer_finishes_after_drop (pages : List Page) (faults : List Attempt) (ops : List Op) (n : Nat)
+    (hrx : (run (init pages faults) ops).rx = .alive)
+    (hn : faults.length + 5 * pages.length + todoRows pages + 7 ≤ n) :
+    (run (run (init pages faults) ops) (Op.drop :: List.replicate n Op.prod)).pc = .done := by
+  have inv := inv_reachable pages faults ops
+  have hd := dropped_of_drop inv.c hrx
+  have hm : Pager.measure (stepDrop (run (init pages faults) ops)) ≤ n := by
+    have h1 := measure_run_le (ops ++ [Op.drop]) (init pages faults)
+    rw [run_append, measure_init] at h1
+    exact Nat.le_trans h1 hn
+  exact drop_prod_finishes n _ hd.rx hd.not_first hm
 
 /-! ### the single-connection pager (`Connection::execute_iter`) never ignores an error -/
 
